@@ -8,7 +8,9 @@ use std::collections::{BTreeMap, BTreeSet};
 const KINDS: [&str; 5] = ["uniform", "storage", "texture", "sampler", "storage_texture"];
 
 fn decl(kind: &str, name: &str, g: u64, b: u64) -> String {
-    let at = format!("@group({g}) @binding({b})");
+    // values above i32::MAX need the `u` suffix, otherwise naga reads the literal as i32 and rejects it
+    let lit = |v: u64| if v > i32::MAX as u64 { format!("{v}u") } else { v.to_string() };
+    let at = format!("@group({}) @binding({})", lit(g), lit(b));
     match kind {
         "uniform" => format!("{at} var<uniform> {name}: vec4<f32>;\n"),
         "storage" => format!("{at} var<storage, read_write> {name}: array<f32>;\n"),
